@@ -34,6 +34,32 @@ fn long_token_light(kind: &str) -> Vec<generic::Doc> {
     generic::long_token_docs(&long_contexts(kind)).into_iter().map(|d| generic::Doc::new(format!("~{}", d.name), d.bytes)).collect()
 }
 
+/// C10 stream cases for the AIGER streaming (section) API: every section as a long run of small
+/// entries. A run of eight '#' in the prefix stands for the number of repetitions (the declared
+/// section size), in the period for 10000000 + repetition index (literals that never repeat).
+fn c10_cases() -> Vec<(Box<dyn Subject>, generic::StreamCase)> {
+    let mut v: Vec<(Box<dyn Subject>, generic::StreamCase)> = Vec::new();
+    let mut add = |subject: &str, lit: &str, label: &str, prefix: &[u8], period: &[u8], max_item: usize| {
+        v.push((subjects::make(subject, lit), generic::StreamCase { label: label.into(), prefix: prefix.to_vec(), period: period.to_vec(), suffix: vec![], max_item }));
+    };
+    for lit in ["u32", "usize"] {
+        add("aag-stream", lit, &format!("aag-outputs-{lit}"), b"aag 0 0 0 ######## 0\n", b"0\n", 8);
+        add("aag-stream", lit, &format!("aag-inputs-{lit}"), b"aag 600000000 ######## 0 0 0\n", b"########0\n", 12);
+        add("aag-stream", lit, &format!("aag-latches-{lit}"), b"aag 600000000 0 ######## 0 0\n", b"########0 1 0\n", 16);
+        add("aag-stream", lit, &format!("aag-and-gates-{lit}"), b"aag 600000000 0 0 0 ########\n", b"########0 1 0\n", 16);
+        add("aag-stream", lit, &format!("aag-bad-{lit}"), b"aag 0 0 0 0 0 ########\n", b"1\n", 8);
+        add("aag-stream", lit, &format!("aag-justice-sizes-{lit}"), b"aag 0 0 0 0 0 0 0 ########\n", b"0\n", 8);
+        add("aag-stream", lit, &format!("aag-fairness-{lit}"), b"aag 0 0 0 0 0 0 0 0 ########\n", b"0\n", 8);
+        add("aag-stream", lit, &format!("aag-symbols-{lit}"), b"aag 1 1 0 0 0\n2\n", b"i0 name ########\n", 20);
+        add("aig-stream", lit, &format!("aig-outputs-{lit}"), b"aig 0 0 0 ######## 0\n", b"0\n", 8);
+        add("aig-stream", lit, &format!("aig-latches-{lit}"), b"aig 600000000 0 ######## 0 0\n", b"0 1\n", 8);
+        // gate k = (gate k-1) & (gate k-1): deltas 2, 0
+        add("aig-stream", lit, &format!("aig-and-gates-{lit}"), b"aig 600000000 0 0 0 ########\n", &[2u8, 0u8], 8);
+        add("aig-stream", lit, &format!("aig-symbols-{lit}"), b"aig 1 1 0 0 0\n", b"i0 name ########\n", 20);
+    }
+    v
+}
+
 /// Repetition family (C05): one construct repeated N times wherever the grammar loops (section
 /// entries, symbols, comment lines, gates, justice sizes); see the cnf harness.
 fn repetition_docs(kind: &str, n: usize) -> Vec<generic::Doc> {
@@ -94,6 +120,11 @@ fn main() {
             "C05" => generic::c05_replay(subject.as_ref(), &v),
             "C08" => generic::c08_replay(subject.as_ref(), &v),
             "C09" => generic::c09_replay(subject.as_ref(), &v),
+            "C10" => {
+                let cases = c10_cases();
+                let (_, case) = cases.into_iter().find(|(_, c)| c.label == v["case"].as_str().unwrap()).expect("unknown stream case");
+                generic::c10_replay(subject.as_ref(), &case, &v)
+            }
             other => {
                 eprintln!("mc-aiger: cannot replay property {other:?}");
                 std::process::exit(2);
@@ -227,6 +258,11 @@ fn main() {
         "C03" => {
             c03::run(tier, &mut report, &|format| gen::inputs_seq(format, tier, tier.pick(3, 4)).all());
             c03::RULE.into()
+        }
+        "C10" => {
+            generic::c10_streams(&c10_cases(), tier, &mut report);
+            report.traces = report.evaluations;
+            "parser half: AIGER documents generated on the fly streamed through the section (streaming) API of the ascii and binary parsers, one long section of small entries per case, at two lengths x chunk sizes x read grains; peak live heap bounded by 16*chunk + 32*max_item + 8 KiB and independent of the length".into()
         }
         "C12" => {
             c12::run(tier, &mut report);
